@@ -2,6 +2,7 @@
     estimate.  Property theorems only. *)
 From Coq Require Import ZArith List Bool.
 From PV Require Import Model.Base Model.Sched Model.Seq.
+From PV Require Gen.PureLoops Proofs.PureLoopsEq.
 From PV Require Import Proofs.SchedInv Proofs.DurationSpec Proofs.ConflictSpec Proofs.AlignWitness.
 Import ListNotations.
 Open Scope Z_scope.
@@ -103,3 +104,13 @@ Theorem C03_align_ends_together_refuted :
                                        snd (step v (run v pre) (OAlign chs ar)) = Ok unit_sv.
 Proof. exact align_ends_together_refuted. Qed.
 Print Assumptions C03_align_ends_together_refuted.
+
+(** Tie to the source by translation: the conflict scan all the theorems above
+    are stated over is EQUAL to the function regenerated from the current source
+    of _Schedule._find_add_delay (nested `for` loops with `break`/`continue`,
+    translated to structural Fixpoints), for every schedule. *)
+Theorem C03_source_find_add_delay :
+  forall (chs : sched) (t0 n : Z) (tg : list Z) (wfa : bool),
+    Gen.PureLoops.gen_find_add_delay chs t0 n tg wfa = find_add_delay n tg wfa t0 chs.
+Proof. exact PureLoopsEq.find_add_delay_eq. Qed.
+Print Assumptions C03_source_find_add_delay.
